@@ -20,8 +20,6 @@ thread_local! {
     static TAP: RefCell<Option<Arc<TapFn>>> = const { RefCell::new(None) };
     /// (index_interval, data_area_index); 0 = keep the built-in value
     static LOG_KNOB: Cell<(u16, u16)> = const { Cell::new((0, 0)) };
-    /// peer address reported for gRPC requests that are handed to RequestServerImpl::request in-process
-    static PEER_ADDR: Cell<(u8, u16)> = const { Cell::new((9, 40000)) };
 }
 
 pub fn set_transport(f: TransportFn) {
@@ -83,15 +81,4 @@ pub fn tune_log_header(mut header: LogIndexHeaderDo) -> LogIndexHeaderDo {
 /// Mirror of a `std::fs::remove_file` into the simulated disk.
 pub fn unlink_sync(path: &str) {
     tokio::fs::verif_unlink_sync(path);
-}
-
-/// The harness calls `RequestServerImpl::request` without a transport, so the request carries no
-/// connection info; this is the peer address used instead (10.2.0.<host>:<port>).
-pub fn set_peer_addr(host: u8, port: u16) {
-    PEER_ADDR.with(|p| p.set((host, port)));
-}
-
-pub fn peer_addr() -> std::net::SocketAddr {
-    let (h, p) = PEER_ADDR.with(|p| p.get());
-    std::net::SocketAddr::from(([10, 2, 0, h], p))
 }
